@@ -221,6 +221,84 @@ def container_forms(run, ct, rng):
                 run.violation(f"{entry} with the explicit path {opt!r}: wrong value", d, tags={"container-form", name, entry, "value"})
 
 
+def nested_and_unhashable(run, ct, rng, count):
+    """(1) a cached expression entered again while it is running (the implementation callables are user code: here they call
+    the same cached contraction on other arrays before the outer call has finished) - both answers must be right;
+    (2) several DIFFERENT contractions whose descriptions cannot be hashed (explicit path as list of lists, `via` given as a
+    list), one after the other without clearing the caches: none may receive another one's expression"""
+    import warnings
+    from cotengra import interface
+    pool = [n for n in nets.net_pool(rng, 30, nmin=3, nmax=5, weird=False) if n.K >= 2 and nets.connected(n)][:8]
+    for _ in range(count):
+        net = rng.choice(pool)
+        inp, out, size = net.c_inputs(), net.c_output(), net.c_sizes()
+        interface._PATH_CACHE.clear()
+        interface._CONTRACT_EXPR_CACHE.clear()
+        a1, a2 = arrays_for(net, rng), arrays_for(net, rng)
+        r1, r2 = nets.refeval(net, a1), nets.refeval(net, a2)
+        d = {"net": net.to_json(), "kind": "nested-use-of-a-cached-expression"}
+        run.count()
+        run.nontrivial(("nested", net.eq(), rng.random()))
+        st = {"calls": 0, "depth": 0, "inner": None, "at": rng.randint(1, max(1, net.N - 1))}
+
+        def maybe_nest():
+            st["calls"] += 1
+            if st["depth"] == 0 and st["inner"] is None and st["calls"] >= st["at"]:
+                st["depth"] = 1
+                try:
+                    st["inner"] = value_of(ct.array_contract(a2, inp, out, optimize="greedy", implementation=impl, cache_expression=True))
+                finally:
+                    st["depth"] = 0
+
+        def es(eq, *arrs):
+            r_ = np.einsum(eq, *arrs)
+            maybe_nest()
+            return r_
+
+        def td(x, y, axes):
+            r_ = np.tensordot(x, y, axes)
+            maybe_nest()
+            return r_
+        impl = (es, td)
+        try:
+            with core.watchdog(60):
+                ct.array_contract(a1, inp, out, optimize="greedy", implementation=impl, cache_expression=True)   # fills the cache
+                st.update(calls=0, inner=None)
+                outer = value_of(ct.array_contract(a1, inp, out, optimize="greedy", implementation=impl, cache_expression=True))
+        except Exception as e:
+            run.violation(f"a cached expression entered again while running raised {core.exc_text(e)} eq={net.eq()}", d,
+                          tags={"nested-expression", "raised"})
+            continue
+        if st["inner"] is not None:
+            if outer.shape != r1.shape or not np.allclose(outer, r1) or st["inner"].shape != r2.shape or not np.allclose(st["inner"], r2):
+                run.violation(f"a cached expression entered again while running: outer call {'right' if np.allclose(outer, r1) else 'WRONG'}, "
+                              f"nested call {'right' if np.allclose(st['inner'], r2) else 'WRONG'} eq={net.eq()}", d,
+                              tags={"nested-expression", "value"})
+        # (2) unhashable descriptions, caches NOT cleared in between
+        others = [n for n in pool if n.N == net.N and n is not net][:2]
+        seq = [net] + others + [net]
+        for k, nb in enumerate(seq):
+            arrs = arrays_for(nb, rng)
+            ref = nets.refeval(nb, arrs)
+            p = [list(x) for x in ct.array_contract_path(nb.c_inputs(), nb.c_output(), nb.c_sizes(), optimize="greedy", cache=False)]
+            kw = rng.choice([{"optimize": p}, {"optimize": "greedy", "via": [np.asarray, np.asarray]}])
+            d2 = {"net": nb.to_json(), "kind": "unhashable-description", "step": k, "kw": sorted(kw)}
+            run.count()
+            try:
+                with warnings.catch_warnings():
+                    warnings.simplefilter("ignore")
+                    got = value_of(ct.array_contract(arrs, nb.c_inputs(), nb.c_output(), cache_expression=True, **kw))
+            except Exception as e:
+                run.violation(f"array_contract with an unhashable description ({sorted(kw)}) raised {core.exc_text(e)} eq={nb.eq()}", d2,
+                              tags={"unhashable-description", "raised"})
+                break
+            if got.shape != ref.shape or not np.allclose(got, ref):
+                run.violation(f"array_contract with an unhashable description ({sorted(kw)}) as call {k + 1} of a sequence of different "
+                              f"contractions gives a wrong value: eq={nb.eq()} (sequence {[x.eq() for x in seq]})", d2,
+                              tags={"unhashable-description", "value"})
+                break
+
+
 def object_histories(run, ct, rng, count):
     from cotengra import interface
     pool = [n for n in nets.net_pool(rng, 30, nmin=3, nmax=5, weird=False) if n.K >= 2 and nets.connected(n)][:10]
@@ -353,6 +431,7 @@ def run(run):
     # place between two builds of an expression: the cached entry points must answer like the uncached ones
     object_histories(run, ct, rng, 12 if quick else 120)
     container_forms(run, ct, rng)
+    nested_and_unhashable(run, ct, rng, 10 if quick else 100)
     # labels with colliding hashes, not canonicalised: every sequence of length 3 over the two calls
     cpool = collision_pool()
     for entry in ("array_contract", "array_contract_expression", "array_contract_path", "expression_with_constants"):
